@@ -8,7 +8,10 @@ sticky switch to rescaling stays consistent.
     batched[band,large]} through the public parameter interface; every reachable state is
     expanded with every operation and every returned value is compared with the reference;
     a freshly built model forced to rescale from the start must agree wherever both are
-    representable."""
+    representable;
+(c) the same search (operations band, under, large) on balanced trees of 4096-8192 tips, where
+    the switch happens under mild underflow and later evaluations are an order of magnitude
+    deeper."""
 import math
 
 import numpy as np
@@ -158,7 +161,7 @@ def explore(case):
     """explicit-state search over (rescale flag, previous op)"""
     inst = Instance(case)
     sband = inst.band_length()
-    ops = [o for o in OPS if sband is not None or "band" not in o]
+    ops = [o for o in case.get("ops", OPS) if sband is not None or "band" not in o]
     viols = []
     visited = set()
     state_of = {(): (False, None)}
@@ -184,7 +187,8 @@ def explore(case):
             for name, detail in bad:
                 viols.append({"case": dict(case, history=h),
                               "detail": f"{case} after {h}: {name}: {detail}",
-                              "sig": {"check": name, "op": op,
+                              "sig": {"check": name, "op": op, "site": inst.site,
+                                      "family": "big" if case["n"] >= 4096 else "window",
                                       "rescale_before": bool(state_of[tuple(hist)][0])}})
             key = (flag, op)
             state_of[tuple(h)] = key
@@ -205,7 +209,9 @@ def explore(case):
             for name, detail in b2:
                 viols.append({"case": dict(case, history=["force_rescale", op]),
                               "detail": f"{case} rescaled from the start, {op}: {name}: {detail}",
-                              "sig": {"check": name, "op": op, "rescale_before": True}})
+                              "sig": {"check": name, "op": op, "site": inst.site,
+                                      "family": "big" if case["n"] >= 4096 else "window",
+                                      "rescale_before": True}})
     except Exception as e:
         viols.append({"case": dict(case, history=["force_rescale"]), "detail": f"{type(e).__name__}: {e}",
                       "sig": {"check": "raises", "op": "force_rescale", "rescale_before": True}})
@@ -309,6 +315,14 @@ def run(run):
                 for tips in ("missing", "states"):
                     items.append(("explore", {"n": n, "shape": shape, "model": mi, "tips": tips,
                                               "depth": 3 if quick else 4}))
+    # (c) trees far larger than the window: the switch happens under mild underflow at short
+    # branches (most subtrees still representable), later evaluations are 8-14 times deeper
+    big = [(8192, 0, "missing"), (8192, 0, "states"), (8192, 1, "missing")] if quick else [
+        (n, mi, tips) for n in (4096, 6000, 8192) for mi in range(len(MODELS))
+        for tips in ("missing", "states")]
+    for n, mi, tips in big:
+        items.append(("explore", {"n": n, "shape": "balanced", "model": mi, "tips": tips,
+                                  "depth": 2 if quick else 3, "ops": ["band", "under", "large"]}))
     items.sort(key=lambda it: (it[0] != "explore", -it[1]["n"]))
     res = pmap(_work, items)
     states = trans = 0
